@@ -112,6 +112,11 @@ func c07Sels() []c07Sel {
 			names: []string{"n", "c", "sk"}, cols: []int{0, 1, 2}, kind: "signed", aggr: true},
 		{sel: "select float(value) as f, count(1) as c where true group by f",
 			names: []string{"f", "c"}, cols: []int{0, 1}, kind: "signedf", aggr: true},
+		// integers beyond 2^53 (neighbours share one float64 image), native and summed per group
+		{sel: "select key, int(value) as n, int(value) + 1 as m where true",
+			names: []string{"n", "m", "key"}, cols: []int{1, 2, 0}, kind: "bigint"},
+		{sel: "select substr(key, 0, 1) as g, sum(int(value)) as s, max(int(value)) as mx where true group by g",
+			names: []string{"s", "mx", "g"}, cols: []int{1, 2, 0}, kind: "bigint", aggr: true},
 		// Boolean group keys (they reach the order plan as the texts true / false,
 		// which sort like the Booleans: false first)
 		{sel: "select float(value) > 1.2 as b, is_int(value) as ii, count(1) as c, sum(strlen(key)) as sk where true group by b, ii",
@@ -216,6 +221,8 @@ func (c07) RunUnit(t core.Tier, u int, r *core.Reporter) {
 		vals = []string{"-5", "-3", "-10", "4"}
 	case "signedf":
 		vals = []string{"-5", "-3.5", "100", "9.5"}
+	case "bigint":
+		vals = []string{"9007199254740993", "9007199254740992", "9007199254740994", "-9007199254740993"}
 	}
 	var stores [][]store.Pair
 	maxLen := 2
